@@ -17,7 +17,7 @@ NEEDS_BUILTIN_WRAPPERS = True      # reads what the builtin monitor records (hoo
 LEVEL = 'fault_enumeration'
 TIERS = {'quick': 1600, 'thorough': 60000}
 WALL_CAP = 120
-TWIN_BUDGET = 3000      # 'unbounded' for the generated programs; runaway recursion is skipped, not judged
+TWIN_BUDGET = 9000      # 'unbounded' for the generated programs; runaway recursion is skipped, not judged
 RULE = ('seeded histories of 1-3 evals over one shared names mapping (prefix evals define lambdas and data; host '
         'functions t/call/attempt bound); for the last eval the unbounded twin gives K (node evaluations counted by '
         'the monitor, not read from the VM), outcome and the effect log (probe calls, names writes, container '
@@ -86,6 +86,10 @@ def generate(seed, tier):
                     st = ['call', 'attempt' if drv == 'attempt' else 'call', [['name', f]] + args, 'plain']
                 at = ro.randrange(len(prog[1]) + 1)
                 prog[1].insert(at, ['assign', 'r', st])
+                if ro.random() < 0.06:
+                    # a text of 1100 characters (few distinct ones) driven through a lambda character by character
+                    world['names']['s1k'] = {'srep': ['ab1 ', 275]}
+                    prog[1].insert(ro.randrange(len(prog[1]) + 1), ['assign', 'r', ['call', 'len', [['call', 'map', [['name', 's1k'], ['lambda', ['c'], ['name', 'c']]], 'plain']], 'plain']])
                 one = sorted(k for k, v in arity.items() if v == 1)
                 if one and ro.random() < 0.15:
                     # the host also binds a mapping object whose items are COMPUTED by a stored lambda (HM[k] calls it): reading
